@@ -882,6 +882,23 @@ def convErrJ : ConvErr → String
 
 def runConvert (j : Json) : P Json := do
   let pb ← parsePBlock (← field j "block")
+  let kind : String := match fieldOpt j "kind" with
+    | some (.str k) => k
+    | _ => "block"
+  if kind == "snapshot" then
+    let extKey : Option (Option Nat) := match fieldOpt j "ext" with
+      | some (.num n) => some (some n.mantissa.toNat)
+      | some (.str _) => some none
+      | _ => none
+    let sb : PSnapBlock := ⟨pb.context, pb.version, pb.facts, pb.rules, pb.checks, pb.scope, extKey⟩
+    match protoToSnapshotBlock sb with
+    | .error e => return Json.mkObj [("err", convErrJ e)]
+    | .ok b =>
+      let back := snapshotBlockToProto b
+      let asBlock : PBlock := ⟨[], back.context, back.version, back.facts, back.rules, back.checks, back.scope, []⟩
+      return Json.mkObj [("ok", pBlockJ asBlock),
+        ("ext", match back.externalKey with | some (some k) => (k : Json) | some none => Json.str "?" | none => Json.null),
+        ("symbols_in_block", b.symbols.length), ("keys_in_block", b.publicKeys.length)]
   let ext ← (match fieldOpt j "ext" with
     | some .null => pure none
     | some v => do pure (some (← getNat v))
